@@ -23,9 +23,6 @@ structure GenHyp (env : Env) (st : Recipe.State) : Prop where
       isConst env.model sg a = false
   mandatory : ∀ sg ∈ env.model.subgraphs, ∀ op ∈ sg.ops, ∀ k, OpNamed env.model op k →
     ∀ b, biasSlot k = some b → (∀ i < b, op.inputs[i]? ≠ some (-1)) ∧ op.outputs[0]? ≠ some (-1)
-  passThrough : ∀ sg ∈ env.model.subgraphs, ∀ op ∈ sg.ops, ∀ k, OpNamed env.model op k →
-    k ∈ passThroughOps → ∀ (i : Nat) a, op.inputs[i]? = some a → a ≠ -1 → i ∉ indexSlots k →
-      isConst env.model sg a = false
 
 /-! ## generic -/
 
@@ -71,15 +68,14 @@ theorem resolve_noBlockwise (rx : String → String → Bool) (st : Recipe.State
 /-! ## one operator -/
 
 theorem opHyp_pseudo (m : Model) (sg : Subgraph) (op : Op) (k : String) (h1 : indexSlots k = [])
-    (h2 : biasSlot k = none) (h3 : k ∉ passThroughOps) : OpHyp m sg op k := by
-  refine ⟨?_, ?_, ?_, ?_⟩
+    (h2 : biasSlot k = none) : OpHyp m sg op k := by
+  refine ⟨?_, ?_, ?_⟩
   · intro i j a _ _ _
     unfold slotRole
     rw [h1, h2]
     simp
   · intro b a hb; rw [h2] at hb; cases hb
   · intro b hb; rw [h2] at hb; cases hb
-  · intro hk; exact absurd hk h3
 
 /-- the requests of one entry of the operator list have the closed shape -/
 theorem opReqs_core (rx : String → String → Bool) (env : Env) (st : Recipe.State) (hg : GenHyp env st)
@@ -264,7 +260,7 @@ theorem sgStep_inv (rx : String → String → Bool) (env : Env) (st : Recipe.St
           · intro k hk
             have hn := keyOf_real env op _ k hk
             exact ⟨hg.slotRoles sg hmem op hopm k hn, hg.constWeight sg hmem op hopm k hn,
-              hg.mandatory sg hmem op hopm k hn, hg.passThrough sg hmem op hopm k hn⟩
+              hg.mandatory sg hmem op hopm k hn⟩
         · intro i hi
           exact .inl ⟨by simp, op, by simpa using hop, hi⟩
         · intro i hi
@@ -288,7 +284,7 @@ theorem sgStep_inv (rx : String → String → Bool) (env : Env) (st : Recipe.St
       · intro k hk
         simp only [keyOf, pure, Except.pure, Except.ok.injEq, Option.some.injEq] at hk
         subst hk
-        exact opHyp_pseudo _ _ _ _ (by decide) (by decide) (by decide)
+        exact opHyp_pseudo _ _ _ _ (by decide) (by decide)
     · intro i hi; cases hi
     · intro i hi; exact .inr ⟨rfl, hi⟩
     · simp
@@ -305,7 +301,7 @@ theorem sgStep_inv (rx : String → String → Bool) (env : Env) (st : Recipe.St
       · intro k hk
         simp only [keyOf, pure, Except.pure, Except.ok.injEq, Option.some.injEq] at hk
         subst hk
-        exact opHyp_pseudo _ _ _ _ (by decide) (by decide) (by decide)
+        exact opHyp_pseudo _ _ _ _ (by decide) (by decide)
     · intro i hi; exact .inr ⟨rfl, hi⟩
     · intro i hi; cases hi
     · simp
